@@ -64,7 +64,9 @@ CHECKS = {
              'own number and a value that is the line without trailing blanks / the line verbatim / the text after the first '
              'colon trimmed, and an unreported line is blank or a declaration with an empty value; numbers lie in 1..#lines and '
              'increase strictly over the whole result; they are contiguous inside every field; a reported field never ends in a '
-             'blank line; source lines contain no LF/CR and LF-joined lines are read back unchanged. The model is co-executed '
+             'blank line; source lines contain no LF/CR and LF-joined lines are read back unchanged; the parser carries the numbers of '
+             'the lines it is handed and never reads them (any renumbering commutes with parsing; lines numbered from k+1 give the '
+             'groups of the text, k higher). The model is co-executed '
              'with deb822.py on all sequences of <=5/6 lines over 8 line kinds, random line sequences with mixed terminators, '
              'the two classifier patterns on every position class, and the six clauses are evaluated on the implementation.',
         note=TRUST + 'The interleaving characterisation of source lines is proved for LF-joined lines; CRLF/CR handling is '
@@ -272,7 +274,9 @@ CHECKS = {
              'group: for every text the result of remove_signature is a contiguous part of the input (never None); without '
              'envelope, or with an envelope whose signed part cannot be read, the input is returned unchanged; for every '
              'well-formed message (armor line, optional Hash header, empty line, any number of text lines, a matching signature '
-             'block without inner block) the result is exactly the lines of the signed text without the final line end. The '
+             'block without inner block) the result is exactly the lines of the signed text without the final line end, also after '
+             'any lines that do not start with five dashes; is_signed ignores white space around the text, and any number of blank '
+             'lines before a message that reads gives the same signed text. The '
              'scanner is co-executed with the compiled pattern unsign.pgp_signed (match, cleartext group), is_signed and '
              'remove_signature on generated well-formed LF/CRLF messages and malformed variants. NOT proved: polynomial '
              'running time of CPython\'s regex engine; it is measured on every run (LF/CRLF, well-formed, damaged CRC/END line, '
